@@ -3,7 +3,7 @@
    every run (tools/tr_c20_mir2c.py -> coq/gen/Mir2cTable.v): each row is the C text out_insn prints
    for one opcode, parsed back into Mir/CExpr.v statements. *)
 From Coq Require Import ZArith List Bool.
-From MirV Require Import Mir.DocSpec Mir.CExpr C02.RowCheck C02.Table C20.Mir2cCheck gen.Mir2cTable C20.Mir2cFacts.
+From MirV Require Import Base.W64 Mir.DocSpec Mir.CExpr C02.RowCheck C02.Table C20.Mir2cCheck C20.ConstPrint gen.Mir2cTable C20.Mir2cFacts.
 Import ListNotations.
 
 (* every template, for ALL operand values on which MIR.md defines the instruction: the emitted C
@@ -30,3 +30,30 @@ Theorem mir2c_ld_rows_are_double_twins :
   exists sd, In (d, [sd]) mir2c_table /\ cstmt_eqb sd (ld2d_stmt s) = true /\ row_sound d sd.
 Proof. exact mir2c_ld_rows. Qed.
 Print Assumptions mir2c_ld_rows_are_double_twins.
+
+(* integer constants: the text out_op prints for a MIR_OP_INT ("%" PRId64) resp. MIR_OP_UINT ("%" PRIu64) operand of
+   ANY 64-bit pattern v (formats re-extracted from mir2c.c on every run) is a well-formed C decimal constant, possibly
+   under a unary minus, whose value in its C type (int, long, or gcc's __int128 above LONG_MAX -- INT64_MIN and unsigned
+   values above INT64_MAX) is exactly the printed number: no overflow, no octal reading; so it is congruent to v mod 2^64 *)
+Theorem mir2c_const_print : forall v,
+  (exists toks t z, print_fmt mir2c_int_fmt v = Some toks /\ c_const toks = Some (t, z) /\ u64 z = u64 v)
+  /\ (exists toks t z, print_fmt mir2c_uint_fmt v = Some toks /\ c_const toks = Some (t, z) /\ u64 z = u64 v).
+Proof. exact mir2c_consts_read_back. Qed.
+Print Assumptions mir2c_const_print.
+
+(* ... and every template converts each integer operand to an integer type of at most 64 bits before using it (a cast
+   directly on the operand, an assignment to an integer object, an argument of __builtin_*_overflow with an integer
+   result type) or only tests it against 0; there a constant of exact value z and an int64_t variable holding the same
+   64 bits give the same value: the row theorems, stated for variables, also hold for immediate operands *)
+Theorem mir2c_operands_converted : forall op l s, In (op, l) mir2c_table -> In s l -> lit_safe_stmt s = true.
+Proof. exact mir2c_operands_convert. Qed.
+Print Assumptions mir2c_operands_converted.
+
+Theorem mir2c_constant_converts_like_variable : forall T z v, is_int T = true -> u64 z = u64 v ->
+  wrap_ty T z = wrap_ty T (s64 v).
+Proof. exact literal_converts_like_variable. Qed.
+Print Assumptions mir2c_constant_converts_like_variable.
+
+Theorem mir2c_constant_zero_test : forall z v, (- 2 ^ 64 < z < 2 ^ 64)%Z -> u64 z = u64 v -> (z =? 0)%Z = (s64 v =? 0)%Z.
+Proof. exact nonzero_test. Qed.
+Print Assumptions mir2c_constant_zero_test.
